@@ -80,25 +80,42 @@ def fieldsig(t):
     return tuple((f.name, tdesc(f.type)) for f in fields(t))
 
 
+_ROOT_CACHE = {}
+
+
 def parse_root(s):
-    """'capture.msg[3]' -> Path (the caller-chosen root under which a value is decoded); '' -> None (default root)"""
+    """'capture.msg[3]' -> Path (the caller-chosen root under which a value is decoded); '' -> None (default root).  A
+    leading '~' asks for the other way a caller can write the same thing down: Path.from_string, whose nodes keep an index
+    as part of the node *name* - the two paths print identically and are different paths"""
     if not s:
         return None
+    if s in _ROOT_CACHE:
+        return _ROOT_CACHE[s]
     import re
     from tpmstream.common.path import Path, PathNode
-    nodes = []
-    for seg in s.split("."):
-        m = re.fullmatch(r"([^\[\]]*)(?:\[(\d+)\])?", seg)
-        nodes.append(PathNode(m.group(1), None if m.group(2) is None else int(m.group(2))))
-    return Path(nodes)
+    if s.startswith("~"):
+        p = Path.from_string(s[1:])
+    else:
+        nodes = []
+        for seg in s.split("."):
+            m = re.fullmatch(r"([^\[\]]*)(?:\[(\d+)\])?", seg)
+            nodes.append(PathNode(m.group(1), None if m.group(2) is None else int(m.group(2))))
+        p = Path(nodes)
+    _ROOT_CACHE[s] = p
+    return p
 
 
 def unroot(path, root=""):
     """string form of a path relative to the root the decode was started under (the oracles work with paths relative to
-    the default root); a path that does not lie under the root is marked - it can never match an expectation"""
+    the default root); a path that does not lie under the root - node by node, with == - is marked: it can never match an
+    expectation"""
     s = str(path)
     if not root:
         return s
+    r = parse_root(root)
+    if tuple(path[:len(r)]) != tuple(r):
+        return "!not-under-root(%s)" % s
+    root = root.lstrip("~")
     if s == root:
         return ""
     if s.startswith(root + "."):
